@@ -68,5 +68,21 @@ k("K70", "C17", "frame/deepcopy_generated.go", "\tif in.Header != nil {\n\t\tin,
   "\tif in.Header != nil {\n\t\tin, out := &in.Header, &out.Header\n\t\t*out = new(Header)\n\t\t**out = **in\n\t}\n\tif in.Body != nil {\n\t\tin, out := &in.Body, &out.Body\n\t\t*out = new(Body)\n\t\t**out = **in\n\t}",
   "no-alias:(*frame.Frame).DeepCopyInto", "nested struct with references copied by value")
 
+# ---- C04
+k("K13", "C04", "message/result_metadata.go", "\t\tif pkCount > 0 {\n\t\t\tmetadata.PkIndices = make([]uint16, pkCount)", "\t\t{\n\t\t\tmetadata.PkIndices = make([]uint16, pkCount)",
+  "nonneg-size:message.decodeVariablesMetadata", "guard on pk count dropped")
+k("K14", "C04", "primitive/bytes.go", "\t} else if length < 0 {\n\t\treturn nil, nil\n\t} else if length == 0 {", "\t} else if length < -1 {\n\t\treturn nil, nil\n\t} else if length == 0 {",
+  "nonneg-size:primitive.ReadBytes", "off-by-one in the null test")
+k("K16", "C04", "datatype/list.go", "func readListType(source io.Reader, version primitive.ProtocolVersion) (decoded DataType, err error) {\n", "func readListType(source io.Reader, version primitive.ProtocolVersion) (decoded DataType, err error) {\n\tif version == 0 {\n\t\treturn readListType(source, version)\n\t}\n",
+  "recursion-progress:", "recursion without reading")
+k("K71", "C04", "message/result_metadata.go", "\t} else if metadata.ColumnCount < 0 {\n\t\treturn nil, fmt.Errorf(\"invalid RESULT Rows metadata column count: %d\", metadata.ColumnCount)\n\t}\n", "\t}\n",
+  "nonneg-size:", "column count validation removed (interprocedural: make in result.go and decodeColumnsMetadata)")
+k("K72", "C04", "datacodec/collection.go", "\t} else if size < 0 {\n\t\terr = fmt.Errorf(\"invalid collection size: %d\", size)\n\t}\n", "\t}\n",
+  "nonneg-size:datacodec.adjustSliceLength", "collection size validation removed (flows through closures to reflect.MakeSlice)")
+k("K73", "C04", "segment/decode.go", "\t\theader.UncompressedPayloadLength = int32(headerData & MaxPayloadLength)\n\t} else {", "\t\theader.UncompressedPayloadLength = int32(headerData) - 1\n\t} else {",
+  "nonneg-size:(*segment.codec).decodeSegmentPayload", "length field no longer masked (flows through the header object to make in decodeSegmentPayload)")
+k("K74", "C04", "primitive/values.go", "\t} else if length < 0 {\n\t\treturn nil, fmt.Errorf(\"invalid [value] length: %v\", length)\n", "\t} else if length < -3 {\n\t\treturn nil, fmt.Errorf(\"invalid [value] length: %v\", length)\n",
+  "nonneg-size:primitive.ReadValue")
+
 json.dump(C, open(os.path.join(os.path.dirname(os.path.abspath(__file__)), "controls.json"), "w"), indent=1)
 print(len(C), "controls")
